@@ -198,6 +198,17 @@ fn cert_items(ctx: &Ctx) -> Vec<CertItem> {
                     items.push(CertItem { k: kp, t: 1, build, seed: rng.next_u64() });
                 }
             }
+            // the smallest K of every row (maximal number of padding symbols) and one K inside it
+            for w in kps.windows(2) {
+                let (lo, hi) = (w[0] + 1, w[1]);
+                if lo < hi {
+                    items.push(CertItem { k: lo, t: 1, build: if rng.below(2) == 0 { Build::Planned } else { Build::UnplannedSparse }, seed: rng.next_u64() });
+                    if hi - lo >= 2 {
+                        let mid = lo + 1 + rng.below((hi - lo - 1) as u64) as u32;
+                        items.push(CertItem { k: mid, t: 1, build: Build::New, seed: rng.next_u64() });
+                    }
+                }
+            }
             for _ in 0..12 {
                 let k = 1 + rng.below(20000) as u32;
                 items.push(CertItem { k, t: 1 + rng.below(4) as usize, build: if rng.below(2) == 0 { Build::UnplannedSparse } else { Build::Planned }, seed: rng.next_u64() });
@@ -284,7 +295,7 @@ fn signature(_c: &Case, msg: &str) -> String {
 }
 
 pub fn run(ctx: &Ctx, rep: &mut Report) {
-    rep.rule = "direct: generated (K from {1..30} U {K', K'-1, K'+1 : K' <= 300 (quick) / 1500 (thorough)}, T in 1..=80/128, data class, construction in {new, with_encoding_plan, unplanned dense/sparse, plan generated on dense/sparse}); reference intermediate symbols by plain GF(256) Gaussian elimination of the RFC constraint matrix; source packets, intermediate symbols and repair payloads for ESIs {K..K+20, 16 drawn from near/uniform/far classes, 2^24-2, 2^24-1} compared byte for byte. certificate: crate intermediate symbols for every one of the 477 block sizes of Table 2 (both tiers) and further K up to 56403 checked against all L reference constraint rows, repair payloads recomputed with the reference Tuple/Enc. tables: SHA-256 pins, Deg on all 2^20 inputs, Rand on 2e5 inputs. Non-trivial = repair symbol with tuple degree d >= 2 on a block with padding (K < K'); distinct by (K, T, ESI).".into();
+    rep.rule = "direct: generated (K from {1..30} U {K', K'-1, K'+1 : K' <= 300 (quick) / 1500 (thorough)}, T in 1..=80/128, data class, construction in {new, with_encoding_plan, unplanned dense/sparse, plan generated on dense/sparse}); reference intermediate symbols by plain GF(256) Gaussian elimination of the RFC constraint matrix; source packets, intermediate symbols and repair payloads for ESIs {K..K+20, 16 drawn from near/uniform/far classes, 2^24-2, 2^24-1} compared byte for byte. certificate: crate intermediate symbols for every one of the 477 block sizes of Table 2, for the smallest K of every row (maximal padding) and one K inside every row (both tiers) and further K up to 56403 checked against all L reference constraint rows, repair payloads recomputed with the reference Tuple/Enc. tables: SHA-256 pins, Deg on all 2^20 inputs, Rand on 2e5 inputs. Non-trivial = repair symbol with tuple degree d >= 2 on a block with padding (K < K'); distinct by (K, T, ESI).".into();
     rep.assumptions.push("V0..V3 and Table 2 are trusted as of the pinned commit (digests in golden/tables.json); no second source exists offline".into());
     rep.assumptions.push("beyond K' = 1500 invertibility of A is not re-proved by a reference solve; a C that satisfies all L relations is the RFC's C provided A is invertible (shown by the solver succeeding and by C06 for all 477 K')".into());
     rep.absorb("tables", table_check());
